@@ -93,6 +93,16 @@ pub fn judge(spec_id: &str, monitors_c20: bool, out: &RunOutcome, known: &[Known
         }
         // a panic belongs to C20; other checks first look at their own monitors
         if out.violations.is_empty() {
+            // (VERIF_STRICT_PANIC=1: used while building to capture and shrink a panic met under another profile)
+            if std::env::var("VERIF_STRICT_PANIC").map_or(false, |v| v == "1") && !known.iter().any(|k| k.signature == sig) {
+                let v = Violation {
+                    property: "C20".into(),
+                    monitor: "panic".into(),
+                    detail: format!("panic at {}:{} \"{}\" during {}", p.file, p.line, p.msg.chars().take(200).collect::<String>(), ctx),
+                    op_index: out.stats.ops as usize,
+                };
+                return Verdict::Fail(v, sig);
+            }
             return Verdict::DiscardPanic(sig);
         }
     }
